@@ -327,10 +327,19 @@ class Engine:
             return m
         cur = m
         for _ in range(60):
+            # shrinking only makes the replay smaller: it never decides anything, so it gets a budget
+            # (a changed tree can make single cases very slow, e.g. a pad loop over 2**63 items)
+            if time.time() - getattr(self, "t_search0", self.t0) > self.shrink_budget():
+                self.count("result", "shrink_budget_exhausted")
+                break
             cands = list(self.mod.shrink(cur.case))[:200]
             if not cands:
                 break
-            ms = self.evaluate(cands, record=False)
+            ms = []
+            for i in range(0, len(cands), 10):
+                ms.extend(self.evaluate(cands[i:i + 10], record=False))
+                if time.time() - getattr(self, "t_search0", self.t0) > self.shrink_budget():
+                    break
             ms = [x for x in ms if want in x.kinds]
             if sig is not None and hasattr(self.mod, "classify"):
                 ms = [x for x in ms if self.mod.classify(x.case, x.impl, x.drv) == sig]
@@ -343,8 +352,15 @@ class Engine:
             m = cur
         return m
 
+    def shrink_budget(self):
+        try:
+            return float(os.environ.get("VERIF_SHRINK_BUDGET", "150" if self.tier == "quick" else "600"))
+        except ValueError:
+            return 150.0
+
     def search(self, mism, broken):
         mod = self.mod
+        self.t_search0 = time.time()
         spec_hits = [m for m in mism if "spec" in m.kinds]
         model_only = [m for m in mism if "spec" not in m.kinds]
         if not spec_hits:
